@@ -731,15 +731,22 @@ def trace(a, offset=0, axis1=0, axis2=1, out=None, out_like=None, sizing='optima
 def prod(a, axis=None, out=None, out_like=None, sizing='optimal', method='raw', **kwargs):
     """
     """
+    def _num_of_products(a, axis):
+        if axis is None:
+            return a.size
+        if isinstance(axis, (tuple, list)):
+            return int(np.prod([a.shape[ax] for ax in axis], dtype=int))    # product over several axes
+        return a.shape[axis]
+
     def _prod_raw(x, n_frac, axis=None, **kwargs):
         precision_cast = (lambda m: np.array(m, dtype=object)) if n_frac >= _n_word_max else (lambda m: m)
-        num_of_products = a.size if axis is None else a.shape[axis]
+        num_of_products = _num_of_products(a, axis)
         return np.prod(x.val, axis=axis, **kwargs) * precision_cast(2**(n_frac - num_of_products * x.n_frac))
 
     if not isinstance(a, Fxp):
         a = Fxp(a)
 
-    num_of_products = a.size if axis is None else a.shape[axis]
+    num_of_products = _num_of_products(a, axis)
     signed = a.signed
     n_word = num_of_products * a.n_word
     n_frac = num_of_products * a.n_frac
